@@ -1,5 +1,6 @@
 import KitProofs.Lemmas.Processor
 import KitProofs.Lemmas.ProcessorProgress
+import KitProofs.Lemmas.ProcessorAllSchedules
 import KitProofs.Lemmas.Queue
 import KitProofs.Lemmas.Heap
 import KitProofs.Lemmas.ProcessorAccept
@@ -67,6 +68,57 @@ theorem none_stranded {s : State κ ν} {x : Item κ ν} (hr : Reach (lts fixedC
     (hopen : s.stopped = false) (hx : x ∈ s.q) (hdue : x.time ≤ s.now) (ht : Timely s) :
     ∃ s', Steps (lts fixedCfg) LoopLabel s s' ∧ Event.exec x s.now ∈ s'.log :=
   progress ⟨hr, hopen, hx, hdue, ht⟩
+
+/-- **loop_measure_decreases**: from a state in which `x` is pending (live, or just popped), due, the
+processor open and the pending timer due, EVERY step of the loop goroutine either starts `x`'s
+callback or keeps all that, leaves the clock alone and strictly decreases the measure
+`40·|queue| + 10·[reset buffered] + 10·[root undetermined] + rank(pc)`. -/
+theorem loop_measure_decreases {s s' : State κ ν} {x : Item κ ν} {l : Label κ ν} (h : Good s x)
+    (hl : l.isLoop = true) (hst : step fixedCfg s l = some s') :
+    Event.exec x s.now ∈ s'.log ∨ (Good s' x ∧ measure s' < measure s ∧ s'.now = s.now) :=
+  loop_step_decreases h hl hst
+
+/-- **none_stranded_all_schedules**: for EVERY schedule of the loop goroutine (every sequence `ls` of
+loop labels that the model can perform, whatever the select statements and the heap's tie-break
+choose) from a reachable open state in which `x` is live and due and the pending timer is due:
+(1) after `ls` either `x`'s callback has started or the measure has dropped by `ls.length`;
+(2) hence `x`'s callback has started after at most `40·|queue| + 32` loop steps;
+(3) as long as it has not, some loop step is enabled — no loop-only execution gets stuck or runs
+forever without executing `x`: every maximal one executes it. -/
+theorem none_stranded_all_schedules {s : State κ ν} {x : Item κ ν} (hr : Reach (lts fixedCfg) s)
+    (hopen : s.stopped = false) (hx : x ∈ s.q) (hdue : x.time ≤ s.now) (ht : Timely s) :
+    (∀ (ls : List (Label κ ν)) (s' : State κ ν), runFrom fixedCfg s ls = some s' →
+      (∀ l ∈ ls, l.isLoop = true) →
+      (Event.exec x s.now ∈ s'.log ∨ (Good s' x ∧ measure s' + ls.length ≤ measure s)) ∧
+      (40 * s.q.length + 32 ≤ ls.length → Event.exec x s.now ∈ s'.log) ∧
+      (Event.exec x s.now ∉ s'.log → ∃ l s'', l.isLoop = true ∧ step fixedCfg s' l = some s'')) := by
+  have hg : Good s x := ⟨hr, hopen, hdue, ht, Or.inl hx⟩
+  intro ls s' hrun hloop
+  have h1 := all_loop_schedules ls hg hrun hloop
+  refine ⟨?_, fun hlen => all_loop_schedules_bound hg hrun hloop hlen, ?_⟩
+  · rcases h1 with h1 | ⟨a, b, _⟩
+    · exact Or.inl h1
+    · exact Or.inr ⟨a, b⟩
+  · intro hne
+    rcases h1 with h1 | ⟨a, _, _⟩
+    · exact absurd h1 hne
+    · exact loop_step_enabled a
+
+/-- **none_stranded_interleaved**: environment steps that leave `x` alone (Enqueue/Dequeue of other
+keys, clock advances) may be interleaved arbitrarily: they keep the state good, and after any such
+prefix every run of `40·|queue| + 32` consecutive loop steps executes `x` — between two environment
+steps the loop needs at most that many steps. -/
+theorem none_stranded_interleaved {s s1 s2 : State κ ν} {x : Item κ ν} {pre seg : List (Label κ ν)}
+    (hr : Reach (lts fixedCfg) s) (hopen : s.stopped = false) (hx : x ∈ s.q) (hdue : x.time ≤ s.now)
+    (ht : Timely s) (hpre : runFrom fixedCfg s pre = some s1)
+    (hok : ∀ l ∈ pre, l.isLoop = true ∨ Benign x l) (hseg : runFrom fixedCfg s1 seg = some s2)
+    (hloop : ∀ l ∈ seg, l.isLoop = true) (hlen : 40 * s1.q.length + 32 ≤ seg.length) : Executed s2 x :=
+  interleaved_schedules pre ⟨hr, hopen, hdue, ht, Or.inl hx⟩ hpre hok hseg hloop hlen
+
+/-- Environment steps that leave `x` alone preserve the hypotheses of the theorems above. -/
+theorem benign_env_step_keeps_good {s s' : State κ ν} {x : Item κ ν} {l : Label κ ν} (h : Good s x)
+    (hb : Benign x l) (hst : step fixedCfg s l = some s') : Good s' x :=
+  good_env_step h hb hst
 
 /-- **late_bound**: the loop's timer is never early and is late by exactly the clock time that
 passed between its reading the clock (`Now()`, ghost `readAt`) and its creating the timer
@@ -460,7 +512,8 @@ the clock (duration 10 ms), the clock advances by 4 ms, the loop creates its tim
 def lateState : State Nat Unit :=
   { q := [⟨1, 10000000, (), 0⟩], token := .loop, reset := false, stopped := false, stopClosed := false,
     pc := .armed ⟨1, 10000000, (), 0⟩, cpc := .idle, now := 4000000, nextId := 1,
-    log := [.enq ⟨1, 10000000, (), 0⟩], timer := 14000000, readAt := 0, armAt := 4000000 }
+    log := [.enq ⟨1, 10000000, (), 0⟩], timer := 14000000, readAt := 0, armAt := 4000000,
+    root := some ⟨1, 10000000, (), 0⟩ }
 
 theorem late_run : runFrom fixedCfg init
     [.enqueue 1 10000000 () true, .peek (some ⟨1, 10000000, (), 0⟩), .pollNone, .decide, .advance 4000000, .arm]
